@@ -28,6 +28,13 @@ def plain(v):
     return v
 
 
+def plain_typed(v):
+    """numpy scalar -> python scalar, keeping int and float apart."""
+    if isinstance(v, np.generic):
+        v = v.item()
+    return v
+
+
 def canon_kw(kw):
     return json.dumps(sorted((k, plain(v)) for k, v in kw.items()),
                       default=repr)
